@@ -17,6 +17,12 @@ FAST_EMUS = [0, 2, 4, 5, 3, 6]
 RATES = [44100, 44100, 48000, 22050, 8000, 96000]
 STYLES = ["inter", "interR", "wide", "wide2", "planar", "planarR", "planarG"]
 DENSE_STYLES = ["inter", "interR", "planar", "planarR"]
+# byte-granular layouts: the record stride (sampleOffset) is NOT a multiple of the container size and / or the
+# left / right pointers are not aligned to it (the documented API allows any sampleOffset and any pointer);
+# the sample slots stay disjoint
+USTYLES = ["planarU", "planarUR", "interU", "interU2", "interO", "planarO"]
+ALL_STYLES = STYLES + USTYLES
+U2_MAX = 200        # largest request rendered as "interU2" outside ustride_grid (checks_audio raises it in the thorough tier)
 
 
 def supported(t, c):
@@ -44,11 +50,40 @@ def ref_fmt(n):
     return {"t": F64, "c": 8, "so": 16, "lb": 0, "rb": 8, "sz": max(1, even(n) // 2) * 16 + 16, "pz": 1, "a": 0}
 
 
+def odd_stride(c, so):
+    """The smallest stride >= so that is not a multiple of the container (c = 1: every stride is a multiple)."""
+    return so + 1 if (c > 1 and so % c == 0) else so
+
+
 def fmt(t, c, n, style, lead=0, tail=0, gap=1, pz=7, a=0):
-    """Geometry of one rendering: disjoint, naturally aligned sample slots."""
+    """Geometry of one rendering: disjoint sample slots; naturally aligned for STYLES, byte-granular for USTYLES
+    (gap 1 gives the smallest legal stride of the style: container + 1 resp. 2 * container + 1)."""
     nf = max(1, even(n) // 2)
     if a:
         t, c, style = S16, 2, "inter"
+    if style in USTYLES:
+        if style == "planarU":       # planar, gap bytes (not containers) between the samples of a plane
+            so, lb = odd_stride(c, c + gap), 0
+            rb = nf * so + gap
+        elif style == "planarUR":    # the same, right plane first
+            so, rb = odd_stride(c, c + gap), 0
+            lb = nf * so + gap
+        elif style == "interU":      # interleaved records of 2 containers + gap bytes
+            so, lb, rb = odd_stride(c, 2 * c + gap), 0, c
+        elif style == "interU2":     # gap bytes between left and right too: right = left + container + gap
+            so, lb, rb = odd_stride(c, 2 * c + 2 * gap), 0, c + gap
+        elif style == "interO":      # ordinary interleaved frames at an unaligned address
+            so, lb, rb = 2 * c, 0, c
+            lead = lead or 1
+        else:                        # "planarO": dense planes at unaligned addresses
+            so, lb = c, 0
+            rb = nf * c + gap
+            lead = lead or 1
+        # the leading / trailing unused room is counted in bytes: lead 1 or 3 makes both pointers unaligned
+        lb += lead
+        rb += lead
+        sz = max(lb, rb) + (nf - 1) * so + c + tail
+        return {"t": t, "c": c, "so": so, "lb": lb, "rb": rb, "sz": sz, "pz": pz, "a": a}
     if style == "inter":
         so, lb, rb = 2 * c, 0, c
     elif style == "interR":
@@ -77,7 +112,7 @@ def fmt(t, c, n, style, lead=0, tail=0, gap=1, pz=7, a=0):
 class Plan:
     """Cycles deterministically through every supported / refused pair and every layout style."""
 
-    def __init__(self, rng, styles=STYLES):
+    def __init__(self, rng, styles=ALL_STYLES):
         ok = [(p, s) for s in styles for p in PAIRS_OK]
         rng.shuffle(ok)
         self.ok = itertools.cycle(ok)
@@ -91,6 +126,8 @@ class Plan:
         r = self.rng
         for k in range(nok):
             (t, c), s = next(self.ok)
+            if s == "interU2" and n > U2_MAX:
+                s = "interU"          # left / right distances alternate: one recorded run per sample, kept for small requests
             fs.append(fmt(t, c, n, s, lead=r.choice([0, 0, 1, 3]), tail=r.choice([0, 0, 1, 2]), gap=r.choice([1, 1, 2, 3]),
                           pz=r.randrange(1, 200), a=1 if (api16 and k == 0) else 0))
         for _ in range(nbad):
@@ -178,7 +215,7 @@ BOUNDARY = [1022, 1023, 1024, 1025, 1026, 2046, 2047, 2048, 2049, 2050, 4095, 40
 
 def boundary(rng, sizes=BOUNDARY, emus=(0, 2, 4), fl=64, sp=64):
     hs = []
-    plan = Plan(rng, styles=["inter", "planar", "wide", "planarR", "interR", "planarG", "wide2"])
+    plan = Plan(rng, styles=["inter", "planar", "wide", "planarR", "interR", "planarG", "wide2", "planarU", "interU", "interO"])
     for i, n in enumerate(sizes):
         emu = emus[i % len(emus)]
         chips = 2 + i % 3
@@ -186,6 +223,52 @@ def boundary(rng, sizes=BOUNDARY, emus=(0, 2, 4), fl=64, sp=64):
         h.append(audio("gen", 512, plan.formats(512, 3, 1), fl, sp))
         h.append(audio("gen", n, plan.formats(n, 3, 1), fl, sp))
         h.append(audio("gen", 7, plan.formats(7, 3, 1), fl, sp))
+        hs.append(h)
+    return hs
+
+
+# ------------------------------------------------------------------ byte-granular strides and pointers
+def ustride_combos():
+    """Every supported pair with a container of 2, 4 or 8 bytes x every byte-granular layout: planar strides
+    container + 1 .. 2 * container + 1, interleaved record strides 2 * container + 1 .. 3 * container + 1 (multiples of the
+    container skipped), a separated right slot, ordinary layouts at unaligned addresses; lead 0 / 1 / container - 1 bytes."""
+    cs = []
+    for (t, c) in PAIRS_OK:
+        if c == 1:
+            continue
+        for gap in range(1, c + 2):
+            if (c + gap) % c:
+                cs.append((t, c, "planarU" if gap % 2 else "planarUR", gap))
+            if (2 * c + gap) % c:
+                cs.append((t, c, "interU", gap))
+        for gap in (1, 2, 3):
+            cs.append((t, c, "interU2", gap))
+        cs.append((t, c, "interO", 1))
+        cs.append((t, c, "planarO", 1))
+    return cs
+
+
+def ustride_grid(rng, emus=(0, 2), calls=8, K=16, fl=48, sp=16, sizes=(4, 6, 10, 1030, 7, 64, 5, 16)):
+    """The combinations of ustride_combos() in rotation (one rotation for all histories: emus x calls x (K - 1) >= 174
+    renders every combination at least once), K - 1 per call; the request sizes include 2 and 3 frames (the smallest
+    that show a stride), odd requests, and sizes that need two and three periods of the 512-frame buffer (the position
+    of a later period inside the caller's memory is a multiple of the stride too)."""
+    hs = []
+    cyc = ustride_combos()
+    rng.shuffle(cyc)
+    cyc = itertools.cycle(cyc)
+    for hi, emu in enumerate(emus):
+        h = [init_cmd(emu, 2, K, rate=RATES[hi % len(RATES)])] + prelude("loud" if hi % 2 == 0 else "mixed", 2)
+        h.append(audio("gen", 300, [ref_fmt(300)] + [fmt(S16, 2, 300, "inter") for _ in range(K - 1)], 16, 64))
+        for ci in range(calls):
+            n = sizes[(ci + 3 * hi) % len(sizes)]
+            fs = [ref_fmt(n)]
+            for k in range(K - 1):
+                t, c, s, gap = next(cyc)
+                fs.append(fmt(t, c, n, s, lead=(0, 1, c - 1, 3)[(ci + k) % 4], tail=(0, 1, 2)[k % 3], gap=gap, pz=rng.randrange(1, 200)))
+            h.append(audio("gen", n, fs, fl, sp))
+            if ci % 4 == 3:
+                h.append({"o": "on", "ch": 3, "k": 45 + ci, "v": 127})
         hs.append(h)
     return hs
 
@@ -271,6 +354,7 @@ def random_history(rng, length=14, fl=96, sp=16):
 
 # ------------------------------------------------------------------ behaviours chosen by TLC (spec/AudioMC.tla)
 MC_FMTS = [(S16, 2, "inter"), (U8, 1, "planar"), (S24, 4, "wide"), (F32, 4, "planarR"), (U16, 4, "inter"), (F64, 8, "inter"),
+           (S16, 2, "planarU", 1), (S32, 4, "interU", 1), (U16, 4, "planarU", 2), (S24, 4, "interU2", 1),
            (S16, 1, "inter"), (S32, 8, "inter"), (F64, 4, "inter"), (10, 2, "inter")]
 MC_SIZES = [-3, -2, -1, 0, 1, 2, 3, 4, 5, 6, 7, 9, 12]
 MC_CAP, MC_D = 2, 2
@@ -309,6 +393,9 @@ def from_behaviour(idx, scale=256, fl=96, sp=16):
         n = op["n"]
         if n > 0:
             n = scale * (n - n % 2) + n % 2
-        t, c, s = MC_FMTS[op["fi"]]
-        h.append(audio(op["o"], n, [ref_fmt(n), fmt(t, c, n, s, gap=1, pz=9)], fl, sp))
+        mf = MC_FMTS[op["fi"]]
+        t, c, s = mf[:3]
+        if s == "interU2" and n > U2_MAX:
+            s = "interU"
+        h.append(audio(op["o"], n, [ref_fmt(n), fmt(t, c, n, s, lead=1 if s in USTYLES else 0, gap=mf[3] if len(mf) > 3 else 1, pz=9)], fl, sp))
     return h
